@@ -66,7 +66,7 @@ impl Prop for C15Prop {
         }
     }
     fn rule(&self) -> &'static str {
-        "one arbitrary stream (1-6 segments: frames intact / with link faults, noise, junk, cut-off and Byzantine frames) tapped by six receivers - push decoder + finalize, decode, decode_streaming, SmlReader over slice / iterator / io::Read - each with Vec and with ArrayBuf<N>, N >= stream length; result logs must agree modulo the documented end-of-input representation. Non-trivial = the log has at least two entries or a non-zero leftover; distinct = scenario fingerprint"
+        "one arbitrary stream (1-6 segments: frames intact / with link faults, noise, junk, cut-off and Byzantine frames) tapped by six receivers - push decoder + finalize, decode, decode_streaming, SmlReader over slice / iterator / io::Read - each with Vec and with ArrayBuf<N>, N >= stream length -, plus decode_streaming over a filtered iterator and a push decoder that already served (and finalized) another stream; result logs must agree modulo the documented end-of-input representation. Non-trivial = the log has at least two entries or a non-zero leftover; distinct = scenario fingerprint"
     }
     fn assumptions(&self) -> Vec<&'static str> {
         vec!["metamorphic: a defect common to all front-ends (they share one decoder) is invisible here; C02 / C08 / C17 carry the independent oracles"]
@@ -158,6 +158,38 @@ impl Prop for C15Prop {
                     break;
                 }
             }
+        }
+        // an eighth receiver: a push decoder that is not fresh - it served another stream that
+        // ended in the middle of something (withheld zeros, half an escape, a cut end sequence)
+        // and was finalized; "the push decoder with finalize" is this object as well
+        if violation.is_none() {
+            const HISTORIES: [&[u8]; 6] = [
+                &[0x1b, 0x1b, 0x1b, 0x1b, 0x01, 0x01, 0x01, 0x01, 0x42, 0x00, 0x00, 0x00],
+                &[0x1b, 0x1b, 0x1b, 0x1b, 0x01, 0x01, 0x01, 0x01, 0x00, 0x00, 0x00, 0x00, 0x00],
+                &[0x1b, 0x1b, 0x1b, 0x1b, 0x01, 0x01, 0x01, 0x01, 0x42, 0x43, 0x00, 0x00, 0x1b, 0x1b, 0x1b, 0x1b, 0x1a, 0x02],
+                &[0x1b, 0x1b, 0x1b, 0x1b, 0x01, 0x01, 0x01, 0x01, 0x42, 0x43, 0x44, 0x45, 0x1b, 0x1b, 0x1b],
+                &[0x55, 0x1b, 0x1b, 0x1b, 0x1b, 0x01, 0x01],
+                &[0x1b, 0x1b, 0x1b, 0x1b, 0x01, 0x01, 0x01, 0x01, 0x42, 0x43, 0x44, 0x45, 0x1b, 0x1b, 0x1b, 0x1b, 0x1b, 0x1b],
+            ];
+            let hist = HISTORIES[stream.len() % HISTORIES.len()];
+            for buf in [BufKind::Vec, BufKind::Arr(cap)] {
+                let obs = fe::drive_push_used_kind(buf, hist, stream);
+                let label = format!("push decoder reused after finalize / {:?}", buf);
+                match (normalise(Fe::Push, &obs), &reference) {
+                    (Ok(n), Some((rl, rn))) if *rn != n => {
+                        violation = Some(Violation::oracle(
+                            "C15.replica-disagreement",
+                            format!("{} reported {} leftover {:?} but {} reported {} leftover {:?}", rl, show_items(&rn.results), rn.leftover, label, show_items(&n.results), n.leftover),
+                        ));
+                    }
+                    (Err(e), _) => violation = Some(Violation::oracle("C15.malformed-log", format!("{}: {}", label, e))),
+                    _ => {}
+                }
+                if violation.is_some() {
+                    break;
+                }
+            }
+            st.bump("probe", "reused-decoder-receiver");
         }
         let (nontrivial, steps) = match &reference {
             Some((_, n)) => {
